@@ -14,13 +14,16 @@
 //	        fails, n = Next fails
 //	events  m<t>.<id>  deliver message id of type t, then wait for quiescence
 //	        M<t>.<id>  deliver without waiting (burst; races with the machine)
+//	        F<t>.<id>.<n>  n copies of message id of type t (a repeating sender), each delivered to
+//	                   a quiescent machine
 //	        i          let the blocking Initiate of the current state return
 //	        h / u      hold the receive loop inside its next Receive call / let it go
 //	        x          cancel the machine's context
 //	After the script: unhold, wait, cancel.
 //
 // Obs line: seq=<states initiated> out=<final:k|err:initiate:k|err:next:k|ctx> hist=<t.id admitted, in
-// order> drop=<n> log=<I k Initiate called, J k returned, T k/<history size> CanTransition true,
+// order> drop=<n> real=<the REAL
+// stored history per type> log=<I k/<history size> Initiate called, J k/<size> returned, T k/<history size> CanTransition true,
 // N k Next, R k.<t>.<id> Receive, X k CanTransition before Initiate returned>
 package main
 
@@ -153,7 +156,7 @@ func (s *toyState) Initiate(ctx context.Context) error {
 	w := s.w
 	w.mu.Lock()
 	w.cur = s.k
-	s.add(fmt.Sprintf("I%d", s.k))
+	s.add(fmt.Sprintf("I%d/%d", s.k, s.histLen()))
 	sp := w.specs[s.k]
 	if sp.g {
 		g := make(chan struct{})
@@ -165,7 +168,7 @@ func (s *toyState) Initiate(ctx context.Context) error {
 		w.mu.Lock()
 		w.gateWait[s.k] = false
 	}
-	s.add(fmt.Sprintf("J%d", s.k))
+	s.add(fmt.Sprintf("J%d/%d", s.k, s.histLen()))
 	w.initRet[s.k] = true
 	w.cond.Broadcast()
 	w.mu.Unlock()
@@ -282,8 +285,8 @@ func parseChain(s string) ([]spec, bool) {
 }
 
 type event struct {
-	kind    byte
-	typ, id int
+	kind         byte
+	typ, id, cnt int
 }
 
 func parseEvents(s string) ([]event, bool) {
@@ -302,7 +305,19 @@ func parseEvents(s string) ([]event, bool) {
 			if e1 != nil || e2 != nil || a < 0 || a > 7 || b < 0 {
 				return nil, false
 			}
-			out = append(out, event{t[0], a, b})
+			out = append(out, event{t[0], a, b, 1})
+		case len(t) > 1 && t[0] == 'F':
+			p := strings.Split(t[1:], ".")
+			if len(p) != 3 {
+				return nil, false
+			}
+			a, e1 := strconv.Atoi(p[0])
+			b, e2 := strconv.Atoi(p[1])
+			c, e3 := strconv.Atoi(p[2])
+			if e1 != nil || e2 != nil || e3 != nil || a < 0 || a > 7 || b < 0 || c < 0 || c > 5000 {
+				return nil, false
+			}
+			out = append(out, event{'F', a, b, c})
 		default:
 			return nil, false
 		}
@@ -376,6 +391,15 @@ func run(op string) (string, string) {
 		case 'M':
 			tags["burst"] = true
 			deliver(e)
+		case 'F': // a repeating sender: cnt copies, each delivered to a quiescent machine
+			ok = w.waitFor(func() bool { return w.quiescent(st0) })
+			if e.cnt >= 256 {
+				tags["flood"] = true
+			}
+			for i := 0; ok && i < e.cnt; i++ {
+				deliver(e)
+				ok = w.waitFor(func() bool { return w.quiescent(st0) })
+			}
 		case 'i':
 			ok = w.waitFor(func() bool { return w.quiescent(st0) })
 			if ok && !w.closed && w.gateWait[w.cur] {
@@ -439,11 +463,26 @@ func run(op string) (string, string) {
 	var seq []int
 	for _, l := range logCopy {
 		if l[0] == 'I' {
-			seq = append(seq, hx.Atoi(l[1:]))
+			seq = append(seq, hx.Atoi(strings.Split(l[1:], "/")[0]))
 		}
 	}
 	// the REAL history must agree with what Receive was handed
-	realN := st0.histLen()
+	var realParts []string
+	for t := 0; t < 8; t++ {
+		ms := st0.GetAllReceivedMessages("t" + strconv.Itoa(t))
+		if len(ms) == 0 {
+			continue
+		}
+		ids := make([]string, len(ms))
+		for i, m := range ms {
+			ids[i] = strconv.Itoa(m.Payload().(*toyMsg).id)
+		}
+		realParts = append(realParts, fmt.Sprintf("%d:%s", t, strings.Join(ids, ".")))
+	}
+	realN := "-"
+	if len(realParts) > 0 {
+		realN = strings.Join(realParts, ";")
+	}
 	out := ""
 	switch {
 	case resErr == nil:
@@ -471,9 +510,9 @@ func run(op string) (string, string) {
 	if len(seq) > 2 {
 		tags["moved2"] = true
 	}
-	obs := fmt.Sprintf("seq=%s out=%s hist=%s real=%d drop=%d log=%s", hx.JoinInts(seq), out, hx.JoinStrs(hist), realN, dropped, hx.JoinStrs(logCopy))
+	obs := fmt.Sprintf("seq=%s out=%s hist=%s real=%s drop=%d log=%s", hx.JoinInts(seq), out, hx.JoinStrs(hist), realN, dropped, hx.JoinStrs(logCopy))
 	var tl []string
-	for _, t := range []string{"final", "ctx", "initerr", "nexterr", "moved", "moved2", "early", "late", "duringinit", "pending", "burst", "hold", "cancel"} {
+	for _, t := range []string{"final", "ctx", "initerr", "nexterr", "moved", "moved2", "early", "late", "duringinit", "pending", "burst", "hold", "cancel", "flood"} {
 		if tags[t] {
 			tl = append(tl, t)
 		}
@@ -546,6 +585,53 @@ func exec(op string) (string, string) {
 
 // ---- generation ------------------------------------------------------------------
 
+// genFlood: a member that lags behind piles up a large history: one or two repeating senders
+// deliver 256..600 copies of their message of one type (or a mix over two types), then the
+// other members' messages of that type arrive, then the state that needs them runs.
+func genFlood(r *hx.Rng) string {
+	k := r.Range(2, 4)
+	t := r.Range(0, k-1)
+	others := r.Range(1, 3)
+	variant := r.Intn(3)
+	senders := 1
+	if variant == 1 {
+		senders = 2
+	}
+	var ss []string
+	for j := 0; j < k; j++ {
+		need := r.Range(0, 1)
+		if j == t {
+			need = senders + others // every other member's message is needed
+		}
+		s := strconv.Itoa(need)
+		if j <= t && r.Chance(1, 2) {
+			s += "g" // the messages arrive before Initiate returns: no ticks needed
+		}
+		ss = append(ss, s)
+	}
+	var evs []string
+	switch variant {
+	case 0: // one repeating sender
+		evs = append(evs, fmt.Sprintf("F%d.1.%d", t, r.Range(256, 600)))
+	case 1: // two repeating senders, in blocks
+		evs = append(evs, fmt.Sprintf("F%d.1.%d", t, r.Range(100, 300)), fmt.Sprintf("F%d.7.%d", t, r.Range(100, 300)), fmt.Sprintf("F%d.1.%d", t, r.Range(60, 200)))
+	default: // per-type mix: no single type grows large, the whole history does
+		u := (t + 1) % k
+		evs = append(evs, fmt.Sprintf("F%d.1.%d", t, r.Range(95, 125)), fmt.Sprintf("F%d.9.%d", u, r.Range(95, 125)), fmt.Sprintf("F%d.1.%d", t, r.Range(95, 125)))
+	}
+	for o := 0; o < others; o++ {
+		evs = append(evs, fmt.Sprintf("m%d.%d", t, 2+o))
+	}
+	for j := 0; j < k; j++ {
+		evs = append(evs, "i")
+		if j != t {
+			evs = append(evs, fmt.Sprintf("m%d.%d", j, 20+j))
+		}
+	}
+	evs = append(evs, "i", "i")
+	return fmt.Sprintf("async %s %s", strings.Join(ss, ","), hx.JoinStrs(evs))
+}
+
 func gen(r *hx.Rng, n int, tier string) []string {
 	var ops []string
 	for i := 0; i < n; i++ {
@@ -563,6 +649,10 @@ func gen(r *hx.Rng, n int, tier string) []string {
 				s += "n"
 			}
 			ss = append(ss, s)
+		}
+		if r.Chance(1, 25) {
+			ops = append(ops, genFlood(r))
+			continue
 		}
 		style := r.Intn(4) // 0,1 fully waiting script; 2 bursts; 3 holds
 		nev := r.Range(0, 14)
